@@ -39,6 +39,7 @@ type c09Params struct {
 	lateCloser     bool
 	discWriteFails int  // socket writes of the client's disconnect responses that may fail (transient error)
 	secondApp      bool // a second application goroutine calls Send 2 ms after the first one in every interval
+	discAllStatus  bool // flat: a disconnect response for the current channel with every status octet in turn (0..255)
 	connAllStatus  bool // flat: the first heartbeat fails, the reconnect is refused with every non-zero status code in turn
 	hbWriteFails   int  // socket writes of connection-state requests that may fail: the heartbeat has failed
 }
@@ -232,6 +233,18 @@ func c09Run(p c09Params) func() {
 						inSeq++
 					}
 					mc.Sleep(H - H/4 - 57*ms)
+				}
+			})
+		}
+		if p.discAllStatus {
+			st := uint8(mc.Choose(256, mc.Free))
+			foreign := mc.Choose(2, mc.Free) == 1
+			mc.GoEnv("disc", func() {
+				mc.Sleep(H/2 + 11*ms)
+				if foreign {
+					deliver(&knxnet.DiscRes{Channel: cur + 50, Status: st})
+				} else {
+					deliver(&knxnet.DiscRes{Channel: cur, Status: st})
 				}
 			})
 		}
@@ -871,6 +884,8 @@ func init() {
 	register("both", &h.Scenario{Name: "C09-all-255-status-codes", Prop: "C09", P: 0, F: 0, D: -1, Run: c09Run(e), Check: c09Oracle(e)})
 	e2 := c09Params{H: 1000, R: 100, T: 300, horizonHB: 2, connAllStatus: true, noTraffic: true}
 	register("both", &h.Scenario{Name: "C09-reconnect-refused-with-all-255-status-codes", Prop: "C09", P: 0, F: 0, D: -1, Run: c09Run(e2), Check: c09Oracle(e2)})
+	e3 := c09Params{H: 1000, R: 100, T: 300, horizonHB: 2, discAllStatus: true}
+	register("both", &h.Scenario{Name: "C09-disconnect-response-with-every-status-octet", Prop: "C09", P: 0, F: 0, D: -1, Run: c09Run(e3), Check: c09Oracle(e3)})
 	f := c09Params{H: 1000, R: 100, T: 300, horizonHB: 5, stateMenu: true, connMenu: true, spont: true}
 	register("thorough", &h.Scenario{Name: "C09-H1000-5epochs-F3", Prop: "C09", P: 0, F: 3, D: -1, Run: c09Run(f), Check: c09Oracle(f)})
 	g := c09Params{H: 1000, R: 100, T: 300, horizonHB: 3, stateMenu: true, connMenu: true, spont: true}
